@@ -427,4 +427,79 @@ def generate():
     sub = P.find_def(pm, "Subscription.subscribe")
     if "self.logger.addImmediateObserver(self.send)" not in U(sub):
         bail("Subscription.subscribe no longer registers send as an immediate observer")
+    # catch-up: the buffered events, sorted by number, are handed to the observer directly (callRemoteOnly); the
+    # bounded queue and the in-flight counter are not touched by subscribe()
+    cu = [x for x in sub.body if isinstance(x, ast.If) and U(x.test) == "catch_up"]
+    want_cu = ["events = list(self.logger.get_buffered_events())", "events.sort(key=lambda a: a['num'])",
+               "for e in events:\n    self.observer.callRemoteOnly('msg', e)"]
+    if len(cu) != 1 or cu[0].orelse or [U(x) for x in cu[0].body] != want_cu:
+        bail("Subscription.subscribe: the catch-up batch is no longer sent directly with callRemoteOnly")
+    for n in ast.walk(sub):
+        if isinstance(n, ast.Attribute) and isinstance(n.value, ast.Name) and n.value.id == "self" \
+                and n.attr in ("queue", "in_flight", "marked_for_sending", "start_sending"):
+            bail("Subscription.subscribe touches self.%s" % n.attr)
+    out.append("Inductive catchup_path := CatchupDirect.")
+    out.append("Definition catchup : catchup_path := CatchupDirect.   (* sorted(buffered) -> observer.callRemoteOnly, bypassing the queue *)")
+    init = P.find_def(pm, "Subscription.__init__")
+    for frag in ("self.queue = deque()", "self.in_flight = 0", "self.marked_for_sending = False"):
+        if frag not in U(init):
+            bail("Subscription.__init__ no longer contains " + frag)
+
+    # ---- which name decides the compression of a written file
+    out.append("Inductive name_used := FinalName | OpenedName.")
+
+    def codec_choice(fn, what, names):
+        """find `if X.endswith('.bz2'): f = bz2.BZ2File(Y, ..) else: f = open(Y, 'wb')` -> (X, Y)"""
+        ifs = [x for x in ast.walk(fn) if isinstance(x, ast.If) and ".endswith('.bz2')" in U(x.test)]
+        if len(ifs) != 1:
+            bail("%s: expected exactly one `.endswith('.bz2')` test, found %d" % (what, len(ifs)))
+        t = ifs[0]
+        if not (isinstance(t.test, ast.Call) and isinstance(t.test.func, ast.Attribute) and t.test.func.attr == "endswith"
+                and len(t.test.args) == 1 and U(t.test.args[0]) == "'.bz2'"):
+            bail("%s: compression test changed: %s" % (what, U(t.test)))
+        x = U(t.test.func.value)
+        body = [b for b in t.body if not isinstance(b, ast.Import)]
+        if len(body) != 1 or len(t.orelse) != 1 or not isinstance(body[0], ast.Assign) or not isinstance(t.orelse[0], ast.Assign):
+            bail("%s: compression branches changed" % what)
+        a, b = body[0].value, t.orelse[0].value
+        if not (isinstance(a, ast.Call) and U(a.func) == "bz2.BZ2File" and isinstance(b, ast.Call) and U(b.func) == "open"
+                and U(b.args[1]) == "'wb'" and U(a.args[1]) in ("'w'", "'wb'")):
+            bail("%s: files are no longer opened with bz2.BZ2File(.., 'w') / open(.., 'wb')" % what)
+        if U(a.args[0]) != U(b.args[0]) or U(body[0].targets[0]) != U(t.orelse[0].targets[0]):
+            bail("%s: the two branches open different names" % what)
+        if x not in names or U(a.args[0]) not in names:
+            bail("%s: compression decided by %s, file opened as %s" % (what, x, U(a.args[0])))
+        return x, U(a.args[0])
+    lfo = P.find_def(mod, "LogFileObserver.__init__")
+    x, y = codec_choice(lfo, "LogFileObserver.__init__", ["filename"])
+    out.append("Definition logfile_codec_from : name_used := FinalName.   (* LogFileObserver: tested and opened name are both `filename` *)")
+    flt = P.load("logging/filter.py")
+    frun = P.find_def(flt, "Filter.run")
+    x, y = codec_choice(frun, "Filter.run", ["options.newfile", "newfilename"])
+    if y != "newfilename":
+        bail("Filter.run opens %s" % y)
+    src_f = U(frun)
+    for frag in ("newfilename = options.newfile", "if options.newfile == options.oldfile:", "newfilename = newfilename + '.tmp'",
+                 "move_into_place(newfilename, options.newfile)", "for e in flogfile.get_events(options.oldfile):",
+                 "flogfile.serialize_raw_wrapper(newfile, e)", "newfile.close()", "newfile.write(flogfile.MAGIC)"):
+        if frag not in src_f:
+            bail("Filter.run no longer contains " + frag)
+    out.append("Definition filter_codec_from : name_used := %s.   (* Filter.run: `%s.endswith('.bz2')` decides how `newfilename` is opened *)"
+               % ("FinalName" if x == "options.newfile" else "OpenedName", x))
+    # the selection of Filter.run: --above LEVEL drops `level < above`; --strip-facility drops a facility prefix
+    ab = [n for n in ast.walk(frun) if isinstance(n, ast.If) and U(n.test).startswith("above is not None and")]
+    if len(ab) != 1 or [U(b) for b in ab[0].body] != ["continue"]:
+        bail("Filter.run: --above test changed")
+    l, op, r = cmp1(ab[0].test.values[1], "Filter.run --above")
+    if (l, r) != ("e['d']['level']", "above"):
+        bail("Filter.run --above compares %s with %s" % (l, r))
+    out.append("Definition filter_above_drop_cmp : lcmp := %s.   (* level %s above -> dropped *)" % (op, op))
+    sf = [n for n in ast.walk(frun) if isinstance(n, ast.If) and "strip_facility is not None" in U(n.test)
+          and "startswith" in U(n.test)]
+    if len(sf) != 1 or U(sf[0].test) != "strip_facility is not None and e['d'].get('facility', '').startswith(strip_facility)" \
+            or [U(b) for b in sf[0].body] != ["continue"]:
+        bail("Filter.run: --strip-facility test changed")
+    ge = P.find_def(fm, "get_events")
+    if "if fn.endswith('.bz2'):" not in U(ge) or "f = bz2.BZ2File(fn, 'r')" not in U(ge) or "f = open(fn, 'rb')" not in U(ge):
+        bail("get_events no longer chooses the decompressor from the file name")
     return {"LogBufGen.v": "\n\n".join(out) + "\n"}
